@@ -170,6 +170,29 @@ def run(ctx):
         res.check(got == srcs, "C15-R3", "version-string:%s" % fname.split("::")[-1], f.loc, "built from %s in that order" % [s.split("::get")[-1] for s in srcs],
                   "%s is built from %s, expected %s" % (fname, got, srcs))
 
+    # closed world of packet attributes: the conversion sets a packet's header attributes where the table says and nowhere else — a second
+    # setter call further down (the device id taken from a status payload's own copy, a timestamp 'corrected') overrides the listed source
+    allowed = {(TC + "GetPackageFromTecmpHeader", row["setter"]) for row in spec["tecmp_header"]}
+    for fname, rows in spec["tecmp_payload"].items():
+        for row in rows:
+            if row["setter"].startswith("ASAM::CMP::Packet::"):
+                allowed.add((fname, row["setter"]))
+    extra = []
+    nset = 0
+    for f2 in fb.all_functions():
+        if not (f2.name.startswith(TC) or f2.name.startswith(TD)) or not f2.body:
+            continue
+        for c2 in f2.calls():
+            nm = callee_name(c2) or ""
+            if nm.startswith("ASAM::CMP::Packet::set") and nm != "ASAM::CMP::Packet::setPayload":
+                nset += 1
+                if (f2.name, nm) not in allowed:
+                    extra.append((f2, c2, nm))
+    res.check(not extra, "C15-R3", "packet-attributes:closed-world", (extra[0][1].get("loc") if extra else None) or gh.loc,
+              "packet header attributes are set only where the conversion table lists a source (%d setter calls)" % nset,
+              "%s calls %s(%s), which the conversion table does not list: it overrides the attribute taken from the TECMP header" %
+              ((extra[0][0].name, extra[0][2].split("::")[-1], canon(extra[0][1]["args"][0])[:60]) if extra else ("", "", "")))
+
     # the TECMP payload object the converters read from holds the frame's own bytes at their full length (C04-R6, shared)
     from rules.c04 import rule_reported_length
     tmp = Result("C15")
